@@ -105,6 +105,37 @@ theorem go_err : ∀ (rest acc : List TD) (e : Str), go rest acc = .error e →
         · exact Or.inl ha
       · exact Or.inr (List.mem_cons_of_mem _ ha)
 
+/-- what `GenerateTypes` keeps is the first definition of every name -/
+theorem go_firsts : ∀ (rest acc out : List TD), go rest acc = .ok out → out = acc.reverse ++ firsts rest (acc.map (·.name)) := by
+  intro rest
+  induction rest with
+  | nil => intro acc out h; simp only [go, Except.ok.injEq] at h; simp [firsts, h]
+  | cons t rest ih =>
+    intro acc out h
+    simp only [go] at h
+    split at h
+    · rename_i p hp
+      obtain ⟨hpm, hpn⟩ := find_some hp
+      have hc : (acc.map (·.name)).contains t.name = true := by
+        rw [List.contains_iff_mem]; exact List.mem_map.mpr ⟨p, hpm, hpn⟩
+      split at h
+      · rw [ih acc out h]
+        have e : firsts (t :: rest) (acc.map (·.name)) = firsts rest (acc.map (·.name)) := by
+          simp only [firsts, hc, if_true]
+        rw [e]
+      · cases h
+    · rename_i hn
+      have hne := find_none hn
+      have hc : (acc.map (·.name)).contains t.name = false := by
+        rw [Bool.eq_false_iff]; intro hc
+        obtain ⟨q, hq, hqn⟩ := List.mem_map.mp (List.contains_iff_mem.mp hc)
+        exact hne q hq hqn
+      rw [ih (t :: acc) out h]
+      have e : firsts (t :: rest) (acc.map (·.name)) = t :: firsts rest (t.name :: acc.map (·.name)) := by
+        simp only [firsts, hc]; rfl
+      rw [e]
+      simp
+
 theorem inj_of_nodup_map {α β : Type} (f : α → β) : ∀ (l : List α), (l.map f).Nodup → ∀ a ∈ l, ∀ b ∈ l, f a = f b → a = b := by
   intro l
   induction l with
